@@ -377,6 +377,15 @@ func runC19(c *Ctx) []Obligation {
 		{Prop: P, ID: "stake.single-pool-move", Fn: "(x/nodes/keeper.Keeper).StakeValidator",
 			Target: CallTo(`coinsFrom|burnStakedTokens|AddStakedTokens|RemoveStakedTokens`).Except(stakeIn + `|^\(x/nodes/types\.Validator\)\.AddStakedTokens\((var:)?validator, amount\)$`),
 			Why:    "exactly one pool movement and one record change"},
+		// a fresh stake overwrites the record with one holding only the new amount, so it is admitted only
+		// over a record that holds nothing in the pool (absent or fully unstaked)
+		{Prop: P, ID: "stake.never-over-unstaking-record", Fn: fnValStaking,
+			Assume: []Lit{T(aValFound), F(`^\(x/nodes/types\.Validator\)\.IsStaked\(` + curVal + `\)$`), F(`^\(x/nodes/types\.Validator\)\.IsUnstaked\(` + curVal + `\)$`)},
+			Target: Success(), Why: "a node that is unstaking still has its tokens in the pool: a stake message for it is refused"},
+		{Prop: P, ID: "stake.staked-record-only-through-edit", Fn: fnValStaking,
+			Assume:  []Lit{T(aValFound), T(`^\(x/nodes/types\.Validator\)\.IsStaked\(` + curVal + `\)$`), F(`^\(x/nodes/types\.Validator\)\.IsUnstaked\(` + curVal + `\)$`)},
+			Barrier: []string{`^` + kN + `ValidateEditStake\(k, ctx, ` + curVal + `, validatorNew, amount, signerAddress\)$`},
+			Target:  Success(), Why: "a staked record is accepted only through edit-stake validation (which moves the difference, not the whole amount)"},
 		// edit stake
 		{Prop: P, ID: "edit.no-bump-no-move", Fn: "(x/nodes/keeper.Keeper).EditStakeValidator",
 			Assume: []Lit{F(`^\(types\.BigInt\)\.IsPositive\(\(types\.BigInt\)\.Sub\(amount, (var:)?currentValidator\.StakedTokens\)\)$`)},
@@ -485,6 +494,13 @@ func runC20(c *Ctx) []Obligation {
 		{Prop: P, ID: "stake.pool-error-gates-record", Fn: "(x/apps/keeper.Keeper).StakeApplication",
 			Assume: []Lit{T(`^nonnil\(` + kP + `coinsFromUnstakedToStaked\(`)}, Target: CallTo(kP + `SetApplication\(|AddStakedTokens\(`),
 			Why: "no record change when the coins did not move"},
+		{Prop: P, ID: "stake.never-over-unstaking-record", Fn: "(x/apps/keeper.Keeper).ValidateApplicationStaking",
+			Assume: []Lit{T(`^` + kP + `GetApplication\(k, ctx, application\.Address\)#1$`), F(`^\(x/apps/types\.Application\)\.IsStaked\(` + kP + `GetApplication\(k, ctx, application\.Address\)#0\)$`), F(`^\(x/apps/types\.Application\)\.IsUnstaked\(` + kP + `GetApplication\(k, ctx, application\.Address\)#0\)$`)},
+			Target: Success(), Why: "an application that is unstaking still has its tokens in the pool: a stake message for it is refused (a fresh stake would overwrite the record and orphan them)"},
+		{Prop: P, ID: "stake.staked-record-only-through-edit", Fn: "(x/apps/keeper.Keeper).ValidateApplicationStaking",
+			Assume:  []Lit{T(`^` + kP + `GetApplication\(k, ctx, application\.Address\)#1$`), T(`^\(x/apps/types\.Application\)\.IsStaked\(` + kP + `GetApplication\(k, ctx, application\.Address\)#0\)$`), F(`^\(x/apps/types\.Application\)\.IsUnstaked\(` + kP + `GetApplication\(k, ctx, application\.Address\)#0\)$`)},
+			Barrier: []string{`^` + kP + `ValidateEditStake\(k, ctx, ` + kP + `GetApplication\(k, ctx, application\.Address\)#0, amount\)$`},
+			Target:  Success(), Why: "a staked record is accepted only through edit-stake validation"},
 		{Prop: P, ID: "edit.no-bump-no-move", Fn: "(x/apps/keeper.Keeper).EditStakeApplication",
 			Assume: []Lit{F(`^\(types\.BigInt\)\.IsPositive\(`)}, Target: CallTo(`coinsFrom|AddStakedTokens`),
 			Why: "without a positive difference neither coins nor StakedTokens change"},
